@@ -230,7 +230,7 @@ def assigned(e):
 
 
 class Scan:
-    """walks a top-level function in the order libcst / symtable open scopes and
+    """walks a top-level function in the order symtable opens scopes and
     records: global name occurrences, keyword names with the scope they are in,
     the pre-order list of scopes, comprehension variables"""
 
@@ -268,13 +268,10 @@ class Scan:
         if k == "bin":
             self.visit(e[2], sc, cur); self.visit(e[3], sc, cur); return
         if k == "if":
-            # source order of  a if c else b  is a, c, b
-            n0 = len(self.scopes)
-            self.visit(e[2], sc, cur)
-            n1 = len(self.scopes)
+            # ifexp_order (function scopes in both a and c of  a if c else b): repaired in /repo.
+            # symtable opens the scopes of the test first (c, a, b); py312_comp_sibling relies on that order
             self.visit(e[1], sc, cur)
-            if n1 > n0 and len(self.scopes) > n1:
-                self.flags.add("ifexp_order")   # symtable visits the test first, libcst the body
+            self.visit(e[2], sc, cur)
             self.visit(e[3], sc, cur); return
         if k == "call":
             self.visit(e[1], sc, cur)
@@ -319,8 +316,47 @@ class Scan:
         raise ValueError(k)
 
 
+def binds_self(params, body):
+    """the formula has a parameter, local variable, nested function, lambda parameter or comprehension variable named
+    `self`: outside the export subset (Export/Model.v no_self, Run.v stbl_okb); export refuses the model"""
+    def bound(e):
+        if not isinstance(e, list) or not e:
+            return []
+        k = e[0]
+        out = []
+        if k == "lam":
+            out += e[1]
+        elif k == "comp":
+            out.append(e[3])
+        elif k == "let":
+            out.append(e[1])
+        elif k == "def":
+            out += [e[1]] + list(e[2])
+        for x in e[1:]:
+            if isinstance(x, list):
+                out += bound(x) if (x and isinstance(x[0], str) and x[0] in NODE_KINDS) else [b for y in x for b in bound(y)]
+        return out
+    return "self" in list(params) + bound(body)
+
+
+NODE_KINDS = ("int", "none", "name", "attr", "bin", "if", "call", "sub", "lam", "list", "comp", "let", "def")
+
+
 def would_replace(x, top, builtins):
     return x in top or x not in builtins
+
+
+def py312_comp_sibling(s):
+    """Scan s: some name is bound by an inlined comprehension, read as a global in an inlined comprehension of the same
+    function that is opened later, and read as a global neither by the function's own block nor by an inlined
+    comprehension opened earlier (the name is then a global of the function already when the binder is inlined)"""
+    for v, i in s.lcomp_vars:
+        b = s.scopes[i]["bearer"]
+        if any(n == v and s.scopes[cur]["bearer"] == b and (cur == b or cur < i) for n, cur in s.all_globals):
+            continue
+        if any(n == v and cur > i and s.scopes[cur]["kind"] == "lcomp" and s.scopes[cur]["bearer"] == b for n, cur in s.all_globals):
+            return True
+    return False
 
 
 def triggers(params, body, top, builtins):
@@ -328,27 +364,21 @@ def triggers(params, body, top, builtins):
     top = names assigned at module level of the source given to FormulaTransformer"""
     s = Scan(params, body)
     out = set(s.flags)
-    if "self" in s.names:
-        out.add("self_name")
+    # self_local: repaired in /repo (export refuses a formula that binds `self`: binds_self below, props/C15.py expects the refusal)
     # D29: a keyword-argument name that the symbol table of its scope lists as a replaced global
     for n, cur, sc in s.kwnames:
         b = s.scopes[cur]["bearer"]
         if n not in sc and n in s.globals_in.get(b, ()) and would_replace(n, top, builtins):
             out.add("D29")
-    # comp_scope: an inlined (list) comprehension looks names up in the symbol table that precedes it
-    # in pre-order; wrong unless that is its enclosing function
-    for i, sc in enumerate(s.scopes):
-        if sc["kind"] == "lcomp":
-            j = i - 1
-            while s.scopes[j]["kind"] == "lcomp":
-                j -= 1
-            if j != sc["bearer"]:
-                out.add("comp_scope")
-    # comp_var: the variable of an inlined comprehension is also read as a global somewhere in the formula
-    allg = {n for n, _ in s.all_globals}
-    for v, i in s.lcomp_vars:
-        if v in allg:
-            out.add("comp_var")
+    # comp_scope (an inlined list comprehension after a sibling lambda / def / generator expression): repaired in /repo
+    # comp_var (the variable of an inlined comprehension is also read as a global somewhere in the formula): repaired in /repo
+    # What stays out is a defect of CPython 3.12.1 itself, not of modelx (the MODEL raises UnboundLocalError): a name that is the
+    # variable of one inlined comprehension and a global read in a LATER inlined comprehension of the same function, and that
+    # the function mentions neither outside comprehensions nor in an earlier one, is compiled as a local of the function
+    # (symtable.c inline_comprehension copies it as a local; the later comprehension then reads the unbound local):
+    #     def f(r): a = [r for k in range(1)]; return [4 for w in range(1) if r < k]        # k is a module global
+    if py312_comp_sibling(s):
+        out.add("cpython3121_comp_sibling")
     return out
 
 
@@ -400,6 +430,7 @@ ATTR_NAMED = {"value": ["ienum", "senum"], "real": ["ienum", "num", "rate", "xfl
 MODEL_LIT_REFS = ["ghs", "grt", "gcd"]
 PROBE_NAMES = ["pr1", "pr2", "pr3"]
 ARITH = ["Add", "Add", "Sub", "Mul"]
+P_SELF = 0.002      # chance that a fresh local / parameter is named `self` (about 3 models in 100 are then refused by export)
 
 
 class Gen:
@@ -423,6 +454,8 @@ class Gen:
             if cand:
                 return r.choice(cand)
         cand = [n for n in LOCALS if n not in avoid]
+        if "self" not in avoid and r.random() < P_SELF:
+            return "self"       # self_local, repaired in /repo: a model with such a formula must be refused by export
         return r.choice(cand)
 
     def g_int(self, ctx, d, budget):
@@ -652,18 +685,23 @@ def gen_case(rng, cid, py_builtins, stats):
         return len(spaces) - 1
 
     # ---- structure ----
+    # builtin_child (repaired in /repo): child spaces and ItemSpace parameters are sometimes named like a built-in
+    def bi_name(plain, *builtin):
+        return r.choice(builtin) if r.random() < 0.3 else plain
+
     a = new_space("A", None)
     if r.random() < 0.6:
-        new_space("C", a)
+        new_space(bi_name("C", "ord"), a)
     if r.random() < 0.6:
         new_space("B", None, bases=[a])
     if r.random() < 0.65:
-        ps = [["n", None]] + ([["q", r.randint(1, 4)]] if r.random() < 0.5 else []) if r.random() < 0.8 else [["n", None], ["q", None]]
+        pn, pq = bi_name("n", "id", "abs"), bi_name("q", "pow", "len")
+        ps = [[pn, None]] + ([[pq, r.randint(1, 4)]] if r.random() < 0.5 else []) if r.random() < 0.8 else [[pn, None], [pq, None]]
         p = new_space("P", None, params=ps)
         if r.random() < 0.6:
-            new_space("Q", p, params=([["v", None]] if r.random() < 0.5 else None))
+            new_space("Q", p, params=([[bi_name("v", "hash", "sorted"), None]] if r.random() < 0.5 else None))
         if r.random() < 0.3:
-            new_space("R", p)
+            new_space(bi_name("R", "vars"), p)
     if r.random() < 0.4:
         new_space("D", None)
     mrefs = []
